@@ -510,6 +510,22 @@ func main() {
 					// fails natively, though with another label: still a real failure
 					confirmed = true
 				}
+				if !confirmed && v.Scheduled {
+					// the counterexample is a schedule (one preemption of the spawned goroutines) as well as an
+					// input vector; a native run cannot be forced onto that schedule. Not reported as VIOLATION
+					// (nothing is, unless it reproduces against the native build); exit 3.
+					end, pp := w.RunPinned(f, v.Inputs, exec.Options{})
+					again := "does not reproduce"
+					for _, pv := range pp.Violations {
+						if pv.Label == v.Label {
+							again = "reproduces"
+						}
+					}
+					fmt.Printf("SCHEDULE-DEPENDENT property=%s harness=%s label=%s: needs the preemption recorded in the vector; the native scheduler did not take it (native status %s); concrete re-execution in the executor under the recorded schedule %s (end %s) vector=%s\n", prop, h.Fn, v.Label, status, again, end, vecPath)
+					ev.Problems = append(ev.Problems, fmt.Sprintf("schedule-dependent counterexample for %s: native run did not take the schedule (status %s); executor re-execution %s", v.Label, status, again))
+					setExit(3)
+					continue
+				}
 				if !confirmed {
 					fmt.Printf("INCONCLUSIVE property=%s harness=%s label=%s: counterexample did not reproduce natively (status %s) vector=%s\n", prop, h.Fn, v.Label, status, vecPath)
 					ev.Problems = append(ev.Problems, fmt.Sprintf("counterexample for %s did not reproduce natively (status %s)", v.Label, status))
